@@ -464,6 +464,9 @@ func (su *suite) run(sc *scenario) {
 	hardCap := 10 * R
 	rounds, conv, capHits := 0, s.converged(), 0
 	quiet := 0
+	// stagnation: a run that is past R and has admitted nothing anywhere for R + one conversation timeout + 2 consecutive rounds is not
+	// run on to the hard cap (it is a violation either way; rounds over thousands of transactions are expensive)
+	stagnant, lastHeld, stalled := 0, -1, false
 	for round := 1; round <= hardCap; round++ {
 		s.tracef("---- fair round %d", round)
 		if s.fairRound(round) {
@@ -474,6 +477,16 @@ func (su *suite) run(sc *scenario) {
 		}
 		if round%gossipPerTimeout == 0 {
 			s.timeoutAll()
+		}
+		if h := s.held_total(); h == lastHeld {
+			stagnant++
+		} else {
+			stagnant, lastHeld = 0, h
+		}
+		if !s.converged() && !sc.expectNo && round > R && stagnant >= R+gossipPerTimeout+2 {
+			stalled = true
+			rounds = round
+			break
 		}
 		if s.converged() {
 			if !conv {
@@ -514,6 +527,9 @@ func (su *suite) run(sc *scenario) {
 			miss = append(miss, fmt.Sprintf("%s lacks %d", n.name, len(sc.w.valid)-n.validHeld))
 		}
 		how := fmt.Sprintf("no convergence within %d fair gossip rounds (R=%d)", hardCap, R)
+		if stalled {
+			how = fmt.Sprintf("no convergence: %d fair gossip rounds (R=%d), the last %d of them (more than R plus a conversation timeout) without a single admission at any node", rounds, R, stagnant)
+		}
 		if capHits >= 2 {
 			how = fmt.Sprintf("livelock: two fair rounds did not quiesce within %d deliveries each (R=%d)", sc.roundStepCap(), R)
 		}
